@@ -97,17 +97,17 @@ def _run_call(ctx, spec, block, dtype, form, zoo=None):
                     if not W.same_tensor(got.detach(), t):
                         mutated = True
                         violation(site, f"simulated_series_altered:{name}",
-                                      f"{label}: after the call the series '{name}' of the simulated underlier is not "
-                                      f"what simulate() delivered ({zoo.kind}/{zoo.dkind}, {block['dtype']})",
-                                      observed=W.describe(got), expected=W.describe(t), block=mini)
+                                  f"{label}: after the call the series '{name}' of the simulated underlier is not "
+                                  f"what simulate() delivered ({zoo.kind}/{zoo.dkind}, {block['dtype']})",
+                                  observed=W.describe(got), expected=W.describe(t), block=mini)
             for (i, name), kind in diffs:
                 mutated = True
                 before, after = s0[0].get((i, name)), s1[0].get((i, name))
                 violation(site, f"mutates_buffer:{name}:{kind}",
-                              f"{label}: buffer '{name}' of instrument #{i} ({zoo.kind if i == 0 else 'brownian'}) "
-                              f"changed ({kind}) under {zoo.dkind}, {block['dtype']}",
-                              observed=None if after is None else W.describe(after[0]),
-                              expected=None if before is None else W.describe(before[0]), block=mini)
+                          f"{label}: buffer '{name}' of instrument #{i} ({zoo.kind if i == 0 else 'brownian'}) "
+                          f"changed ({kind}) under {zoo.dkind}, {block['dtype']}",
+                          observed=None if after is None else W.describe(after[0]),
+                          expected=None if before is None else W.describe(before[0]), block=mini)
             grad, version = W.flag_changes(s0, s1)
             if grad:
                 ctx.add("requires_grad_set_on_buffer", len(grad))
@@ -119,18 +119,18 @@ def _run_call(ctx, spec, block, dtype, form, zoo=None):
         for name, kind in bad:
             mutated = True
             violation(site, f"mutates_argument:{name}:{kind}",
-                          f"{label}: caller tensor '{name}' changed ({kind}), form={form}, {block['dtype']}",
-                          observed=W.describe(c.t[name][1]), expected=W.describe(a0[name][0]), block=mini)
+                      f"{label}: caller tensor '{name}' changed ({kind}), form={form}, {block['dtype']}",
+                      observed=W.describe(c.t[name][1]), expected=W.describe(a0[name][0]), block=mini)
         if flags:
             ctx.add("requires_grad_set_on_caller_tensor", len(flags))
         ctx.add("caller_tensors_snapshotted", len(a0))
-        ctx.tick(1, nontrivial=1 if W.depends_on_data(out1) else 0)
+        ctx.tick(1, nontrivial=1 if (not spec["nondet"] and W.depends_on_data(out1)) else 0)
         if expect is not None and not raised:
             want = expect()
             if not W.same_result(out1, want):
                 violation(site, prepared.get("expect_class", "differs_from_fresh"),
-                              f"{label}: {prepared.get('expect_msg', 'result differs from the independent evaluation')}",
-                              observed=W.describe(out1), expected=W.describe(want), block=mini)
+                          f"{label}: {prepared.get('expect_msg', 'result differs from the independent evaluation')}",
+                          observed=W.describe(out1), expected=W.describe(want), block=mini)
         if not mutated and not raised and not spec["nondet"]:
             try:
                 out2 = thunk()
@@ -141,9 +141,9 @@ def _run_call(ctx, spec, block, dtype, form, zoo=None):
                 out2 = f"{type(e).__name__}: {str(e)[:200]}"
             if not W.same_result(out1, out2):
                 violation(site, "not_repeatable",
-                              f"{label}: the same call on the same data gives a different result the second time",
-                              observed=W.describe(out2), expected=W.describe(out1), block=mini)
-        if isinstance(out1, torch.Tensor) and out1.numel():
+                          f"{label}: the same call on the same data gives a different result the second time",
+                          observed=W.describe(out2), expected=W.describe(out1), block=mini)
+        if isinstance(out1, torch.Tensor) and out1.numel() and not spec["nondet"]:
             ctx.outcome((site, round(float(out1.detach().flatten().nan_to_num(nan=-1.0, posinf=9e9, neginf=-9e9)
                                            .to(torch.float64).sum()), 6)))
     finally:
@@ -809,6 +809,18 @@ class _Observer:
         if W.diff_prims(_no_ptr(pre), _no_ptr(s0)):
             from mc.core.runner import HarnessError
             raise HarnessError(f"replaying {hist} twice gives different series")
+        if isinstance(out_live, W.Raised):
+            proj = W.build(self.variant, self.seed, W.data_projection(hist))
+            proj.adopt(W._Donor(after, state=after.pre_state))
+            ref = W.safe_apply(proj, op)
+            fresh_too = isinstance(ref, W.Raised)
+            ctx.tick(1)
+            ctx.violation(site, ("raises:" if fresh_too else "history_dependent:raises:") + str(out_live).split(":")[0],
+                          f"after {_fmt(hist)} the operation {_fmt([op])} raises {out_live}"
+                          + (" (so does a fresh hedger on the current series)" if fresh_too else
+                             " while a fresh hedger with the same parameters on the current series returns a value")
+                          + f" [variant {self.variant}]", observed=str(out_live), expected=W.describe(ref), block=blk)
+            return
         # (1) frame rule on the simulated series of all three derivatives
         allowed = W.may_change(op)
         for (i, name), kind in W.diff_prims(s0, s1):
@@ -852,12 +864,12 @@ class _Observer:
         # instruments.  It is run in the world of the live hedger right after its operation: by the frame rule
         # checked above the series are what they were before (a simulating operation re-delivers the same script),
         # the parameters handed over are the ones the live hedger had before the operation.
-        keep = (after.hedger, after.aux, after.last)
+        keep = (after.hedger, after.aux, after.last, after.post, after.failed, len(after.trace))
         after.hedger, after.aux = W.make_hedger(self.variant, after.derivs, self.seed)
         after.adopt(W._Donor(after, state=after.pre_state))
-        ref_a = after.apply(op, observe=False)
-        after.hedger, after.aux, after.last = keep
-        after.trace.pop()
+        ref_a = W.safe_apply(after, op)
+        after.hedger, after.aux, after.last, after.post, after.failed = keep[:5]
+        del after.trace[keep[5]:]
         if not W.same_result(out_live, ref_a):
             ctx.violation(site, "history_dependent:vs_fresh_hedger",
                           f"after {_fmt(hist)} the result of {_fmt([op])} differs from a fresh hedger holding the same "
@@ -870,7 +882,7 @@ class _Observer:
         if pkey not in self.memo:
             proj = W.build(self.variant, self.seed, W.data_projection(hist))
             proj.adopt(W._Donor(after, state=after.pre_state))
-            self.memo[pkey] = proj.apply(op, observe=False)
+            self.memo[pkey] = W.safe_apply(proj, op)
             ctx.add("reference_worlds_built", 1)
         ref_b = self.memo[pkey]
         if not W.same_result(out_live, ref_b):
@@ -952,7 +964,8 @@ def run(ctx):
              "call's result carries a finite non-zero number (it read the data). histories: breadth-first over all "
              "operation sequences up to the depth from the empty and the all-simulated initial history, deduplicated by "
              "(per derivative: declared dtype, buffer names/shapes/dtypes; hedger: parameter dtype, prev_output "
-             "shape/dtype, derivative a shared ModuleOutput is bound to); every transition is executed on real objects "
+             "shape/dtype, training flag, derivative a shared ModuleOutput is bound to; names of all attributes stored on "
+             "hedger, model, derivatives, underliers); every transition is executed on real objects "
              "and checked (frame rule, parameter frame, two fresh-hedger differentials); non-trivial = query "
              "transitions with a data-dependent result")
     ctx.assume("abstract states merged by canon() have the same futures w.r.t. the property: control flow of pfhedge "
